@@ -25,6 +25,34 @@ def negative_configs(ck):
     ck.set("repair_design_checked", "ForcedBreaks=onlyWhereSeparated satisfies NoInventedSeparation and Idempotent")
 
 
+def fmtcmd_stage(ck):
+    """spec/FmtCmd.tla: a run of `templ fmt <dir>` over directories of fixed / loose / invalid / other / skipped files.
+    TLC checks "after one in-place run, -fail agrees" and the write discipline; every transition is replayed through the
+    real fmtcmd.Run on a real directory (1 and 4 workers)."""
+    r = vlib.tlc("FmtCmd", "FmtCmd_mc.cfg", workers=2, timeout=600)
+    ck.add_tlc(r, "FmtCmd_mc")
+    if not r.ok:
+        raise vlib.InfraError("FmtCmd_mc: %s violated in the model" % r.violated)
+    n = vlib.tlc("FmtCmd", "FmtCmd_neg.cfg", workers=1, timeout=600)
+    if n.violated != "AfterOneRunFailAgrees":
+        raise vlib.InfraError("FmtCmd_neg (in-place run that does not write) was not rejected by AfterOneRunFailAgrees")
+    g = vlib.tlc("FmtCmd", "FmtCmd_gen.cfg", workers=1, timeout=600)
+    ck.add_tlc(g, "FmtCmd_gen")
+    edges = g.tagged("EDGE")
+    if len(edges) < 1000:
+        raise vlib.InfraError("FmtCmd_gen emitted only %d transitions" % len(edges))
+    path = vlib.write_ndjson(os.path.join(vlib.scratch(), "fmtcmd-edges.ndjson"), edges)
+    binp = vlib.go_build("./fmtcmd", "fmtcmd")
+    p = vlib.run([binp, path], check=False, timeout=1800)
+    summ = vlib.harness_results(ck, p, "templ fmt <dir>: ")
+    if summ["edges"] != len(edges):
+        raise vlib.InfraError("fmtcmd replay processed %d of %d transitions" % (summ["edges"], len(edges)))
+    ck.set("fmtcmd_transitions_replayed", summ["edges"])
+    ck.set("fmtcmd_runs", summ["runs"])
+    ck.set("fmtcmd_exit_classes", summ["exits"])
+    ck.set("fmtcmd_negative_config", "an in-place run that reports but does not write violates AfterOneRunFailAgrees")
+
+
 def run(prop):
     level = "translation_validation" if prop == "C08" else "model_checking"
     ck = vlib.Check(prop, level)
@@ -50,6 +78,10 @@ def run(prop):
     ck.set("layout_model_cases", lay["cases"])
     ck.set("layout_model_agree", lay["agree"])
     ck.set("layout_model_drift", lay["drift"])
+    if lay["drift"]:
+        # not a verdict (the property is decided on the real formatter's output), but never silent: a drifting
+        # model no longer binds the layout specification to the code
+        sys.stderr.write("NOTE: layout model (FmtLayout.tla) and formatter disagree on %d of %d cases\n" % (lay["drift"], lay["cases"]))
     p = vlib.run([binp, "progs", ppath], check=False, timeout=3000)
     nfail = {"C08": 0, "C09": 0}
     summary = None
@@ -104,11 +136,13 @@ def run(prop):
     ck.set("disagreements_checked", nfail[prop] + (s2["c08"] if prop == "C08" else s2["c09"]))
     ck.set("traces_validated_against_impl", summary["cases"] + s2["files"])
     if prop == "C09":
+        fmtcmd_stage(ck)
         ck.set("evaluations", summary["cases"] + s2["files"])
         ck.set("distinct_nontrivial", summary["programs"])
         ck.set("rule", "distinct abstract programs enumerated by TLC from TemplLang.tla (deduplicated by AST), each in 3 concrete spellings; "
                        "non-trivial = at least one node; oracle fmt(fmt(x)) = fmt(x) bytewise through fmtcmd.Run")
-    ck.assume("formatter path = fmtcmd.Run stdin->stdout (parser.ParseString, TemplateFile.Write); imports.Process is skipped because no file path is given")
+    ck.assume("formatter path = fmtcmd.Run stdin->stdout (parser.ParseString, TemplateFile.Write); one source in eight is formatted with a "
+              "file name, which adds the import rewriting of cmd/templ/imports; C09 also replays the directory mode (FmtCmd.tla)")
     ck.assume("'same program' = generated Go equal after masking templ.Error{Line,Col} and gofmt; programs are not compiled here (C02 compiles and renders them)")
     ck.assume("program space: TemplLang.tla focus families (BFS within node budgets) + seeded simulation; not all templ syntax (no css/script templates, no multi-line Go expressions)")
     ck.finish()
